@@ -284,7 +284,7 @@ CHECKS["C03"] = {
     "units": [
         {"pkg": ".", "run": "^TestVerif_C03_", Q: {"timeout": 900}, T: {"timeout": 3400, "shards": 12}},
     ],
-    "mandatory_labels": {"all": ["forgery/stopped-by-signature-check-only", "forgery/replayed-signature", "store/account", "store/multimember",
+    "mandatory_labels": {"all": ["forgery/stopped-by-signature-check-only", "forgery/replayed-signature", "store/account", "store/multimember", "store/forgery-appended", "store/forgery-concurrent-branch",
                                  "types/EventTypeGroupMemberDeviceAdded", "types/EventTypeMultiMemberGroupInitialMemberAnnounced", "types/EventTypeAccountVerifiedCredentialRegistered"]},
 }
 
